@@ -360,11 +360,20 @@ def check_identities(ctx: Ctx, values):
         ctx.decide("R06.7", None, None, "identity:RVD-mirror", "RVD(Y,X) = -r/(1+r) for r = RVD(X,Y)", mirrored.equals((Rat(Poly()) - R) / (one + R)), {"r": repr(R), "mirrored": repr(mirrored)})
 
 
+def _run_rule(ctx, name, fn):
+    """a sub-rule that cannot be evaluated is recorded as undecided; the remaining rules still run"""
+    try:
+        return fn(ctx)
+    except (Undecided, AnchorMissing) as e:
+        ctx.undecided(name, None, None, f"{name}:analysis", f"{type(e).__name__}: {e}")
+        return 0
+
+
 def check(ctx: Ctx):
     values = check_kernels(ctx)
-    check_cldice(ctx)
-    check_selection(ctx)
-    check_registry(ctx)
+    _run_rule(ctx, "check_cldice", check_cldice)
+    _run_rule(ctx, "check_selection", check_selection)
+    _run_rule(ctx, "check_registry", check_registry)
     check_identities(ctx, values)
     # "computed on exactly the voxels selected": the crop the pipeline applies first covers both
     # masks (R10.3), nobody binarises the caller's arrays in place (R15.1), and the metric wrapper
